@@ -253,10 +253,13 @@ func c09Eval(c *fw.Ctx, k c09Case) (sig, desc string, nontrivial bool) {
 		if _, el, _, _ := parseDiffLines(text); el != 1 {
 			return "C09/missing-side/not-reported", ctx + ": no err: line in the output: " + text, true
 		}
-	case "layout":
+	case "layout", "layout-points":
 		nontrivial = true
 		sf.Write(filepath.Join(sdir, "a.wsp"))
 		other := LayoutByTag("L5")
+		if k.Mode == "layout-points" { // same archive count and steps, only the last archive's point count differs
+			other = LayoutDef{Archs: wsp.ParseLayout("1s:2s,2s:8s")}
+		}
 		(&BFile{L: wsp.Layout{Archs: other.Archs, Method: 2}, Rings: EmptyRings(wsp.Layout{Archs: other.Archs})}).Write(filepath.Join(ddir, "a.wsp"))
 		for dir := 0; dir < 2; dir++ {
 			a, b := sdir, ddir
@@ -344,6 +347,11 @@ func runC09(c *fw.Ctx) {
 					if di == 0 {
 						for _, m := range []string{"missing-dest", "missing-src", "layout"} {
 							c09One(c, c09Case{Layout: "L4", Now: now, Palette: pal, Src: s, Dst: s, Mode: m, Archive: -1})
+						}
+						for _, arch := range []int{-1, 0, 1} {
+							for _, w := range wins {
+								c09One(c, c09Case{Layout: "L4", Now: now, Palette: pal, Src: s, Dst: s, Mode: "layout-points", Archive: arch, From: w[0], Until: w[1]})
+							}
 						}
 					}
 				}
